@@ -98,7 +98,7 @@ INVALID_EXPRESSIONS = ["MIT AND", "OR MIT", "MIT AND OR ISC", "(MIT", "MIT)", "M
 
 # ---- holders ---------------------------------------------------------------
 _FIRST = ["Jane", "John", "Zoë", "Łukasz", "Ng", "María-José", "O'Brien", "李", "Müller", "J. R. R.", "Анна", "Sébastien", "Nguyễn Văn", "Jean  Luc"]
-_LAST = ["Doe", "Smith", "van der Berg", "Tolkien", "Ó Súilleabháin", "Иванова", "山田", "d'Arc", "Smith-Jones", "McDonald", "Roland", "Marc", "Team C#", "Yahoo!"]
+_LAST = ["Doe", "Smith", "van der Berg", "Tolkien", "Ó Súilleabháin", "Иванова", "山田", "d'Arc", "Smith-Jones", "McDonald", "Roland", "Marc", "Team C#", "Yahoo!", "Vitamin c", "Klasse C", "Team dnl"]
 _ORGS = ["Free Software Foundation Europe e.V.", "ACME, Inc.", "Foo & Bar GmbH", "Example Corp. (UK) Ltd", "The Project Authors", "Rivos Inc.", "Überwald AG", "株式会社テスト", "A-B C.D. s.r.o.", "contributors to X"]
 _SUFFIX = ["", "", "", " <jane@example.org>", " <https://example.org>", " <https://fsfe.org/a?b=c&d=e>", " and others", " (maintainer)", ", 2nd"]
 
